@@ -26,11 +26,13 @@
      "version"; the bookkeeping keys `_join_count` / `current_section` that stay in the passage
      dict, `block_execute` of a @join choice and token-level "tags" (not in Story/Compiled.v).
 
-   Oracle added to ParseBase.pyparse: in _validate_single_call the code reads `tree.body.args` after
-   ast.parse(call_str, mode="eval") succeeded; the body is not a Call node for an argument string
-   such as  "(") + (")"  (the depth scan of extract_target_and_args is fooled by parentheses inside
-   string literals), and the attribute read raises AttributeError.  `py_body_is_call args` says
-   whether the body of the parsed expression is a Call node.
+   Oracle added to ParseBase.pyparse: in _validate_single_call the body of
+   ast.parse(call_str, mode="eval") is not a Call node for an argument string such as  "(") + (")"
+   (the depth scan of extract_target_and_args is fooled by parentheses inside string literals); the
+   code rejects that as malformed arguments (fix a323daa; before it the read of `call_node.args`
+   raised AttributeError).  `py_body_is_call args` says whether the body is a Call node.
+   ast.parse giving up with RecursionError / MemoryError / ValueError is a SyntaxError for the
+   compiler since fix 6f31489, so the oracles py_stmt_ok / py_call_shape answer false / None there.
 
    The passages dict: Python inserts the new passage dict at the header (`passages[name] = current`)
    and mutates it afterwards through `current_passage`; the model keeps the passage being built in
@@ -157,7 +159,9 @@ Definition validate_single_call (passages : list (string * passage)) (target arg
           match py_call_shape pp args_str with
           | None => dsyn "call:malformed-arguments" 0
           | Some (positional_count, keyword_args) =>
-              if negb (py_body_is_call args_str) then PInternal INoneAttr else   (* call_node.args *)
+              (* `if not isinstance(call_node, ast.Call): raise SyntaxError` (fix a323daa; before it
+                 `call_node.args` raised AttributeError here) *)
+              if negb (py_body_is_call args_str) then dsyn "call:malformed-arguments" 0 else
               let param_names := map pname ps in
               let required := filter (fun p => match pdefault p with None => true | Some _ => false end) ps in
               if List.length ps <? positional_count then dsyn "call:too-many-positional" 0 else
